@@ -9,7 +9,6 @@ import (
 
 	epb "github.com/google/gce-tcb-verifier/proto/endorsement"
 	"github.com/google/gce-tcb-verifier/sev"
-	"github.com/google/uuid"
 	"google.golang.org/protobuf/encoding/protowire"
 	"google.golang.org/protobuf/proto"
 	tspb "google.golang.org/protobuf/types/known/timestamppb"
@@ -186,7 +185,6 @@ func (w *world) goldenVariant(idx, carrier int) ([]byte, string) {
 		raw := w.byName["snp-raw"].data
 		es := parseTable(raw[0x4A0:])
 		want := efiGUIDBytes(sev.GCEFwCertGUID)
-		_ = uuid.Nil
 		for k := range es {
 			if bytes.Equal(es[k].guid[:], want) {
 				es[k].blob = eb
